@@ -200,6 +200,46 @@ func runC09(res *result) {
 			}
 		}
 	}
+	// several requests on ONE server connection (simple server) and through one HTTP handler, each with
+	// its own set of user headers: a later request that lacks a header of an earlier one must not see it
+	type serveExp struct {
+		desc string
+		hdrs []map[string]string
+	}
+	var sexps []serveExp
+	firstServe := len(plan.Ops)
+	hdrSeqs := [][]map[string]string{
+		{{"tenant": "acme", "trace": "1"}, {}, {"trace": "2"}},
+		{{}, {"a": "1"}, {"b": "2"}},
+		{{"k": "v1"}, {"k": "v2"}, {}},
+	}
+	for _, server := range []string{"simple", "http"} {
+		for pi, proto := range protos {
+			for si, hs := range hdrSeqs {
+				if !thorough && (pi+si)%2 == 1 && server == "http" {
+					continue
+				}
+				cs := &callSpec{Kind: "serve", Service: "Svc", Proto: proto, Server: server}
+				byOp := map[string]*outcomeSpec{}
+				var fss []frameSpec
+				for i, h := range hs {
+					op := fmt.Sprint(200 + i)
+					fss = append(fss, frameSpec{Method: "echo", MType: 1, Args: &idl.W{T: idl.TStruct, F: map[string]*idl.W{"1": i32W(int64(i))}}, OpID: op, Cid: "c" + op, Headers: h})
+					byOp[op] = &outcomeSpec{Kind: "return", Value: iv(int64(i))}
+				}
+				raw, _ := json.Marshal(fss)
+				var anyFS []map[string]interface{}
+				json.Unmarshal(raw, &anyFS)
+				csj, _ := json.Marshal(cs)
+				var csm map[string]interface{}
+				json.Unmarshal(csj, &csm)
+				csm["frame_specs"] = anyFS
+				csm["outcome_by_opid"] = byOp
+				plan.Ops = append(plan.Ops, drvOp{Op: "call", Call: csm})
+				sexps = append(sexps, serveExp{fmt.Sprintf("%s server, %s: three requests on one connection with user headers %v", server, proto, hs), hs})
+			}
+		}
+	}
 	res.Nontrivial = int64(len(plan.Ops))
 	pj, _ := json.Marshal(plan)
 	out, err := runDriver(u, pj)
@@ -213,6 +253,51 @@ func runC09(res *result) {
 		return
 	}
 	opids := map[string]string{}
+	for j, se := range sexps {
+		res.Evaluations++
+		rr := results[firstServe+j]
+		var cr callResult
+		json.Unmarshal(rr.Call, &cr)
+		bad := func(kind, msg string) {
+			res.fail(finding{Key: "C09/" + kind + "/serve", IDL: u.texts, Atom: se.desc, Msg: se.desc + ": " + msg})
+		}
+		if rr.Panic != "" || cr.Err != "" {
+			bad("call-failed", rr.Panic+cr.Err)
+			continue
+		}
+		if len(cr.HandlerCtx) != len(se.hdrs) {
+			bad("handler-invocations", fmt.Sprintf("%d handler invocations for %d requests", len(cr.HandlerCtx), len(se.hdrs)))
+			continue
+		}
+		for _, seen := range cr.HandlerCtx {
+			idx := -1
+			fmt.Sscanf(seen.OpID, "%d", &idx)
+			_ = idx
+		}
+		byCid := map[string]*ctxSeen{}
+		for _, seen := range cr.HandlerCtx {
+			byCid[seen.Cid] = seen
+		}
+		for i, want := range se.hdrs {
+			seen := byCid[fmt.Sprintf("c%d", 200+i)]
+			if seen == nil {
+				bad("correlation-id", fmt.Sprintf("no handler saw correlation id c%d", 200+i))
+				continue
+			}
+			got := map[string]string{}
+			for k, v := range seen.Headers {
+				if !strings.HasPrefix(k, "_") {
+					got[k] = v
+				}
+			}
+			if fmt.Sprint(got) != fmt.Sprint(want) {
+				bad("request-header-lost-or-changed", fmt.Sprintf("the handler of request %d sees user headers %v, its caller set %v", i, got, want))
+			}
+		}
+	}
+	results = results[:firstServe]
+	exps = exps[:firstServe]
+
 	for i, rr := range results {
 		res.Evaluations++
 		cs, desc := exps[i].cs, exps[i].desc
